@@ -495,3 +495,61 @@ func DecodeQUICStream(s []byte, c Comp) ([][]byte, error) {
 	}
 	return res, nil
 }
+
+// RunBodies: the single-writer oracle over explicit message bodies (native fuzz target): write, read, compare, decode the captured
+// frames independently, compare the counters.
+func RunBodies(comp Comp, bodies [][]byte, p *Pair, k *ev.Case, framing string) *ev.Failure {
+	var got [][]byte
+	for i, b := range bodies {
+		var werr error
+		func() {
+			defer func() {
+				if r := recover(); r != nil {
+					werr = fmt.Errorf("panic in Write: %v", r)
+				}
+			}()
+			werr = p.A.Write(b)
+		}()
+		if werr != nil {
+			return ev.Failf("C13.1 write-error", "message %d (%d bytes): %v (compression %s)", i, len(b), werr, comp.Key())
+		}
+		g, err := p.B.Read()
+		if err != nil {
+			return ev.Failf("C13.1 read-error", "message %d of %d: the peer's Read fails: %v (compression %s)", i, len(bodies), err, comp.Key())
+		}
+		if !bytes.Equal(g, b) {
+			return ev.Failf("C13.1 bytes", "message %d: wrote %d bytes, peer read %d bytes (first difference at %d; compression %s)", i, len(b), len(g), firstDiff(g, b), comp.Key())
+		}
+		got = append(got, g)
+	}
+	if p.Frames != nil {
+		if frames, _, ok := p.Frames(); ok && framing == "websocket" {
+			dec, err := DecodeWebSocket(frames, comp)
+			if err != nil {
+				return ev.Failf("C13.3 independent-decoder", "the frames on the wire cannot be decoded from the documented framing: %v (compression %s)", err, comp.Key())
+			}
+			framed := 0
+			for _, f := range frames {
+				framed += len(f)
+			}
+			if len(dec) != len(got) {
+				return ev.Failf("C13.3 independent-decoder", "the wire carries %d frames, the peer read %d messages", len(dec), len(got))
+			}
+			for i := range dec {
+				if !bytes.Equal(dec[i], got[i]) {
+					return ev.Failf("C13.3 independent-decoder", "frame %d decodes to %d bytes with an independent decoder, the peer's Read returned %d bytes (compression %s)", i, len(dec[i]), len(got[i]), comp.Key())
+				}
+			}
+			if tx := p.A.TxBytesCounterValue(); tx != uint64(framed) {
+				return ev.Failf("C13.4 counters", "TxBytesCounterValue %d, bytes framed on the wire %d (compression %s)", tx, framed, comp.Key())
+			}
+			if rx := p.B.RxBytesCounterValue(); rx != uint64(framed) {
+				return ev.Failf("C13.4 counters", "peer RxBytesCounterValue %d, bytes framed on the wire %d (compression %s)", rx, framed, comp.Key())
+			}
+		}
+	}
+	if comp.Enabled() && len(bodies) >= 2 {
+		k.Label("fuzz/comp=on")
+	}
+	return nil
+}
